@@ -173,9 +173,18 @@ def c11(tier):
 C12_FEATURES = "into, try_from, iter, MIN, MAX, as_str, next"
 
 
-def c12_case(decl_body, repr_line="#[repr(i8)]", pre="", derive="Clone, Copy, EnumTools"):
-    return ("#![allow(warnings)]\nuse enum_tools::EnumTools;\n%s\n#[derive(%s)]\n#[enum_tools(%s)]\n%s\n%s\n"
-            % (pre, derive, C12_FEATURES, repr_line, decl_body))
+# feature sets under which every out-of-domain declaration must be rejected: what the derive emits decides what rustc itself
+# would still reject (e.g. `as_str` names every variant in a pattern), so "none" and sets that never name a single variant matter
+C12_FEATURE_SETS = {"std": C12_FEATURES, "none": None, "into": "into",
+                    "non-naming": "into, try_from, next, next_back, iter, range, MIN, MAX, TryFrom, Into",
+                    "all": ", ".join(catalogue.FEATURES)}
+
+
+def c12_case(decl_body, repr_line="#[repr(i8)]", pre="", derive="Clone, Copy, EnumTools", feats="std"):
+    f = C12_FEATURE_SETS[feats]
+    attr = "#[enum_tools(%s)]" % f if f is not None else ""
+    return ("#![allow(warnings)]\nuse enum_tools::EnumTools;\n%s\n#[derive(%s)]\n%s\n%s\n%s\n"
+            % (pre, derive, attr, repr_line, decl_body))
 
 
 EXPRS = [
@@ -202,17 +211,22 @@ def c12_cases(tier):
                       ("union", "pub union E { a: u8 }"), ("empty-enum", "pub enum E {}")]:
         for rl in ("#[repr(i8)]", "#[repr(C)]", "", "#[repr(transparent)]"):
             cases.append(("kind:%s:%s" % (lab, rl), c12_case(body, rl)))
-    # fields
-    for field in ("(u8)", "()", "{}", "{ x: u8 }", "(u8, u8)"):
-        for pos in range(3):
-            for disc in (True, False):
-                vs = ["A", "B", "C"]
-                vals = [10, 11, 12]
-                parts = []
-                for i, v in enumerate(vs):
-                    f = field if i == pos else ""
-                    parts.append("%s%s%s" % (v, f, " = %d" % vals[i] if disc else ""))
-                cases.append(("field:%s@%d%s" % (field, pos, ":disc" if disc else ""), c12_case("pub enum E { %s }" % ", ".join(parts))))
+    # fields (4 variants so that the second and third are neither minimum nor maximum), under every feature set
+    for fs in C12_FEATURE_SETS:
+        ok_cases.append(("base-4-%s" % fs, c12_case("pub enum E { A, B, C, D }", feats=fs)))
+        for field in ("(u8)", "()", "{}", "{ x: u8 }", "(u8, u8)"):
+            for pos in range(4):
+                for disc in (True, False):
+                    vs = ["A", "B", "C", "D"]
+                    vals = [10, 11, 12, 13]
+                    parts = []
+                    for i, v in enumerate(vs):
+                        f = field if i == pos else ""
+                        parts.append("%s%s%s" % (v, f, " = %d" % vals[i] if disc else ""))
+                    cases.append(("field:%s@%d%s:%s" % (field, pos, ":disc" if disc else "", fs),
+                                  c12_case("pub enum E { %s }" % ", ".join(parts), feats=fs)))
+            # two empty-field variants in the middle
+            cases.append(("field2:%s:%s" % (field, fs), c12_case("pub enum E { A, B%s, C%s, D }" % (field, field), feats=fs)))
     # discriminant expression grammar
     def expr_case(expr, pos, label):
         vals = ["40", "50", "60"]
@@ -223,6 +237,10 @@ def c12_cases(tier):
     for lab, e in depth1:
         for pos in range(3):
             cases.append(expr_case(e, pos, "expr:%s@%d" % (lab, pos)))
+    for fs in ("none", "non-naming", "all"):
+        for lab, e in depth1:
+            body = "pub enum E { A = 40, B = %s, C = 60 }" % e
+            cases.append(("expr:%s@1:%s" % (lab, fs), c12_case(body, "#[repr(i8)]", pre=PRE, feats=fs)))
     wrappers = [("neg", "-%s"), ("paren", "(%s)"), ("cast", "%s as R"), ("plus0", "%s + 0"), ("block", "{ %s }")]
     d2 = depth1 + [("lit", "1"), ("neglit", "-1")]
     for lab, e in d2:
@@ -458,7 +476,7 @@ def c14_cases(tier):
                             continue
                         # name assignments
                         order_idx = sorted(range(n), key=lambda i: perm[i])   # positions sorted by the intended value
-                        for na in ("by-value", "reverse", "rename-invert", "prefix-equal"):
+                        for na in ("by-value", "reverse", "rename-invert", "prefix-equal", "equal-pair", "equal-last"):
                             if n == 1 and na != "by-value":
                                 continue
                             if tier == "quick" and na == "prefix-equal" and n > 2:
@@ -476,6 +494,12 @@ def c14_cases(tier):
                                 for pos in range(n):
                                     idents[pos] = "N%d" % pos
                                     renames[pos] = "r%d" % (n - 1 - pos)
+                            elif na in ("equal-pair", "equal-last"):
+                                # two adjacent variants carry the SAME name after renaming (first pair / last pair)
+                                pool = ["Q", "Q", "R", "S"] if na == "equal-pair" else ["O", "P", "Q", "Q"][4 - n:]
+                                for pos in range(n):
+                                    idents[pos] = "N%d" % pos
+                                    renames[pos] = pool[pos]
                             else:
                                 # prefix pair "A"/"AA" then an equal pair
                                 pool = ["A", "AA", "AA", "B"]
